@@ -175,6 +175,9 @@ def check(ctx):
                 d_ = _sd(f)
                 if isinstance(a, ast.Name) and a.id in d_:
                     a = d_[a.id]
+                if a is not None:
+                    from ..norm import inline_class_factories
+                    a = inline_class_factories(P, a, RM)      # the entry may be built by a static helper of the manager
                 if isinstance(a, ast.Tuple) and len(a.elts) == 2 and isinstance(a.elts[0], ast.Name) and a.elts[0].id in d_:
                     a = ast.Tuple(elts=[d_[a.elts[0].id], a.elts[1]], ctx=ast.Load())
                 if not (isinstance(a, ast.Tuple) and len(a.elts) == 2 and ast.unparse(a.elts[0]) in (f'copy.deepcopy({rq})', f'deepcopy({rq})') and ast.unparse(a.elts[1]) == cb):
